@@ -1,21 +1,21 @@
 package main
 
 import (
-	"syscall"
-	"net"
-	"net/http/httptest"
-	"net/http"
-	"github.com/polydawn/rio/fs"
-	"hash/crc32"
 	"archive/zip"
 	"bytes"
 	"context"
 	"encoding/binary"
 	"fmt"
+	"github.com/polydawn/rio/fs"
+	"hash/crc32"
+	"net"
+	"net/http"
+	"net/http/httptest"
 	"os"
 	"os/exec"
 	"path/filepath"
 	"strings"
+	"syscall"
 
 	api "github.com/polydawn/go-timeless-api"
 	"github.com/polydawn/go-timeless-api/rio"
